@@ -770,12 +770,131 @@ fn instantiate_trait_method_ty(ty: &tast::Ty, self_ty: &tast::Ty) -> tast::Ty {
     instantiate_self_ty(ty, self_ty)
 }
 
+/// A name can be defined once per package: a second function, type or trait of the same name
+/// would silently replace the first one, and repeated variants, fields or parameters end up as
+/// repeated Go declarations.
+fn report_duplicate_definitions(
+    diagnostics: &mut Diagnostics,
+    hir: &hir::PackageHir,
+    hir_table: &hir::HirTable,
+) {
+    fn note(
+        diagnostics: &mut Diagnostics,
+        seen: &mut Vec<String>,
+        name: String,
+        what: &str,
+        owner: &str,
+    ) {
+        if seen.contains(&name) {
+            diagnostics.push(Diagnostic::new(
+                Stage::Typer,
+                Severity::Error,
+                format!("{} {} is defined more than once{}", what, name, owner),
+            ));
+        } else {
+            seen.push(name);
+        }
+    }
+
+    fn note_params(diagnostics: &mut Diagnostics, hir_table: &hir::HirTable, func: &hir::Fn) {
+        let mut params: Vec<String> = Vec::new();
+        for (param, _) in func.params.iter() {
+            if hir_table.local_hint(*param) == "_" {
+                continue;
+            }
+            note(
+                diagnostics,
+                &mut params,
+                hir_table.local_hint(*param).to_string(),
+                "Parameter",
+                &format!(" in function {}", func.name),
+            );
+        }
+    }
+
+    let mut types: Vec<String> = Vec::new();
+    let mut traits: Vec<String> = Vec::new();
+    let mut funcs: Vec<String> = Vec::new();
+    for item in hir.toplevels.iter() {
+        match hir_table.def(*item) {
+            hir::Def::EnumDef(enum_def) => {
+                let name = enum_def.name.to_ident_name();
+                let mut variants: Vec<String> = Vec::new();
+                for (variant, _) in enum_def.variants.iter() {
+                    note(
+                        diagnostics,
+                        &mut variants,
+                        variant.to_ident_name(),
+                        "Variant",
+                        &format!(" in enum {}", name),
+                    );
+                }
+                note(diagnostics, &mut types, name, "Type", "");
+            }
+            hir::Def::StructDef(struct_def) => {
+                let name = struct_def.name.to_ident_name();
+                let mut fields: Vec<String> = Vec::new();
+                for (field, _) in struct_def.fields.iter() {
+                    note(
+                        diagnostics,
+                        &mut fields,
+                        field.to_ident_name(),
+                        "Field",
+                        &format!(" in struct {}", name),
+                    );
+                }
+                note(diagnostics, &mut types, name, "Type", "");
+            }
+            hir::Def::TraitDef(trait_def) => {
+                note(
+                    diagnostics,
+                    &mut traits,
+                    trait_def.name.to_ident_name(),
+                    "Trait",
+                    "",
+                );
+            }
+            hir::Def::Fn(func) => {
+                note_params(diagnostics, hir_table, func);
+                note(diagnostics, &mut funcs, func.name.clone(), "Function", "");
+            }
+            hir::Def::ImplBlock(block) => {
+                for method in block.methods.iter() {
+                    if let hir::Def::Fn(func) = hir_table.def(*method) {
+                        note_params(diagnostics, hir_table, func);
+                    }
+                }
+            }
+            hir::Def::ExternGo(ext) => {
+                note(
+                    diagnostics,
+                    &mut funcs,
+                    ext.goml_name.to_ident_name(),
+                    "Function",
+                    "",
+                );
+            }
+            hir::Def::ExternType(ext) => {
+                note(
+                    diagnostics,
+                    &mut types,
+                    ext.goml_name.to_ident_name(),
+                    "Type",
+                    "",
+                );
+            }
+            _ => {}
+        }
+    }
+}
+
 pub fn collect_typedefs(
     env: &mut PackageTypeEnv,
     diagnostics: &mut Diagnostics,
     hir: &hir::PackageHir,
     hir_table: &hir::HirTable,
 ) {
+    report_duplicate_definitions(diagnostics, hir, hir_table);
     predeclare_types(env.current_mut(), hir, hir_table);
 
     for item in hir.toplevels.iter() {
